@@ -82,6 +82,12 @@ def _all_fields(desc, name):
 
 def gen_generate_c01(rng, tier):
     """the shared generator plus instances the serializer refuses (every 4th case)"""
+    # corpus: an instance of the base class where a subclass is declared, the base holding an
+    # `init=False` attribute (the object holds its default, which is written): thorough seed 1
+    u = B.Universe(_FAULT_FIXED_DESC)
+    _UNIS[u.modname] = u
+    yield {"ctx": u.export_ctx(), "value": u.to_val(u.from_val(_FAULT_FIXED_VALUE)), "desc": _FAULT_FIXED_DESC, "_uni": u.modname,
+           "ignore_default_attributes": False, "_fault": "unrelated"}
     n = 0
     for a in gen_generate(rng, tier):
         yield a
@@ -89,7 +95,27 @@ def gen_generate_c01(rng, tier):
         if n % 4 == 0:
             kind, v = faulty_value(rng, a["desc"], a["value"])
             if v is not None:
+                # what the real object holds: an `init=False` field cannot be given, it holds its default
+                u = uni_of(a)
+                try:
+                    v = u.to_val(u.from_val(v))
+                except Exception:  # noqa: BLE001
+                    continue
                 yield {**a, "value": v, "_fault": kind}
+
+
+_FAULT_FIXED_DESC = {"classes": [
+    {"name": "Leaf0", "fields": [
+        {"name": "c1", "type": "str", "metadata": {"type": "Attribute", "required": True}},
+        {"name": "h", "type": "int", "metadata": {"type": "Attribute"}, "default": {"value": 3}, "init": False}],
+     "meta": {"namespace": "urn:b"}},
+    {"name": "Leaf0Ext", "bases": ["Leaf0"], "fields": [
+        {"name": "extra", "type": {"opt": "str"}, "metadata": {"type": "Element"}, "default": {"value": None}}],
+     "meta": {"namespace": "urn:b"}},
+    {"name": "Root", "fields": [
+        {"name": "g", "type": {"opt": {"cls": "Leaf0Ext"}}, "metadata": {"name": "bg", "type": "Element"}, "default": {"value": None}}],
+     "meta": {"namespace": "urn:a"}}]}
+_FAULT_FIXED_VALUE = {"obj": "Root", "fields": [["g", {"obj": "Leaf0", "fields": [["c1", None], ["h", None]]}]]}
 
 
 def classify_generate(a, o):
